@@ -65,7 +65,7 @@ ObsOK == (l > 1) =>
     /\ enabled = e.enabled
     /\ procs = e.processors
     /\ \A i \in 1..Len(e.pprio) : pprio[e.pprio[i][1]] = e.pprio[i][2]
-    /\ Len(queue) = e.qlen
+    /\ (e.qlen >= 0 => Len(queue) = e.qlen)      \* -1: the recorder could not see the queue (private attribute)
     /\ SameBag(Lifecycle(log), Lifecycle(e.log)) /\ Frames(log) = Frames(e.log)
 Track == ObsOK /\ TLCSet(tid, IF l > TLCGet(tid) THEN l ELSE TLCGet(tid))
 
